@@ -32,6 +32,7 @@ def parse_strace(path, root):
     names = {}
     ev = []
     pend = {}         # pid -> unfinished line
+    skip = False      # between EXTB / EXTE markers the harness itself creates a file
     for raw in open(path, errors="replace"):
         m = re.match(r"^(\d+)\s+(.*)$", raw.rstrip("\n"))
         if not m:
@@ -46,12 +47,12 @@ def parse_strace(path, root):
         mo = re.match(r'openat\(AT_FDCWD, "([^"]*)", ([A-Z_|0-9]+)[^)]*\)\s+= (\d+)', l)
         if mo:
             p, flags, fd = mo.group(1), mo.group(2), int(mo.group(3))
-            if (p.startswith(root + "/w/") or p.startswith(root + "/o/")) and ("O_WRONLY" in flags or "O_RDWR" in flags):
+            if (p.startswith(root + "/w/") or p.startswith(root + "/o/")) and ("O_WRONLY" in flags or "O_RDWR" in flags) and not skip:
                 fds[fd] = names.setdefault(p, len(names))
             else:
                 fds.pop(fd, None)
             continue
-        mo = re.match(r"close\((\d+)\)", l)
+        mo = re.match(r"close\((\d+)\s*\)\s+= 0", l)
         if mo:
             fds.pop(int(mo.group(1)), None)
             continue
@@ -64,8 +65,12 @@ def parse_strace(path, root):
                 ev.append("f:" + s.split()[1])
             elif s.startswith("START"):
                 ev = []
+            elif s.startswith("EXTB"):
+                skip = True
+            elif s.startswith("EXTE"):
+                skip = False
             continue
-        mo = re.match(r"(fsync|fdatasync)\((\d+)\)\s+= 0", l)
+        mo = re.match(r"(fsync|fdatasync)\((\d+)\s*\)\s+= 0", l)
         if mo and int(mo.group(2)) in fds:
             ev.append("s:%d" % fds[int(mo.group(2))])
     return ev
